@@ -121,9 +121,22 @@ def run(ctx, ck):
     for r in rets:
         g = if_chain_preds(ctx.flow(it).cfg, ctx.flow(it).node_id_of(r))
         shapes[norm(r.value)] = g
-    ok = set(shapes) == {'iter([1])', 'iter([1, -1])'} and \
-        shapes['iter([1])'] == [('self.media is None', True)] and \
-        shapes['iter([1, -1])'] in ([], [('self.media is None', False)])
+    def media_none(guards):
+        """True / False / None: does the guard chain say `self.media is None`?"""
+        val = None
+        for t, b in guards:
+            if t == 'self.media is None':
+                val = b
+            elif t == 'self.media is not None':
+                val = not b
+            elif t in ('self.media', 'not self.media'):
+                val = None      # truthiness differs from None-ness ([] is ideal ground in old APIs)
+        return val
+    ok = set(shapes) == {'iter([1])', 'iter([1, -1])'}
+    if ok:
+        a_, b_ = media_none(shapes['iter([1])']), media_none(shapes['iter([1, -1])'])
+        # one of the two returns is guarded, the other is the fall-through
+        ok = (a_ is True and b_ in (None, False)) or (b_ is False and a_ in (None, True))
     ck.ob('R-LIT.image-iter', it.qual, ok, it.loc(), 'returns %s' % shapes)
 
     from .C08 import check_weights
